@@ -921,7 +921,13 @@ func (f *frame) callEnv(c *ssa.CallCommon, args []TV, st *bstate) *Env {
 		env.vars["self"] = *f.curSelf
 	}
 	for i := range args {
-		env.vars[fmt.Sprintf("arg%d", i)] = args[i]
+		a := args[i]
+		if c != nil && !c.IsInvoke() && len(c.Args) == len(args) {
+			if lv, ok := f.lvs[c.Args[i]]; ok && lv != nil {
+				a.LV = lv
+			}
+		}
+		env.vars[fmt.Sprintf("arg%d", i)] = a
 	}
 	return env
 }
